@@ -64,15 +64,68 @@ def random_rule(rng, pipe, pfail):
     return D(["ok"] * n, form=rng.choice(["list", "list", "and", "or", "1of"]))
 
 
+def insert_rule(rules, pos, new):
+    """insert `new` (whose references point to positions < pos) at position pos; references of the rules behind
+    it are renumbered"""
+    out = copy.deepcopy(list(rules))
+    for r in out:
+        if r["k"] == "c":
+            r["refs"] = [j + 1 if j >= pos else j for j in r["refs"]]
+    out.insert(pos, copy.deepcopy(new))
+    return out
+
+
 def add_correlations(rules, rng, k):
+    """k correlation rules, each at a random dependency-respecting position (anywhere behind the last rule it
+    refers to: in front of, between and behind the remaining detection / correlation rules)"""
     rules = list(rules)
     for _ in range(k):
         n = len(rules)
-        refs = rng.sample(range(n), rng.choice([1, 1, 2, 2, 3]) if n >= 3 else rng.randint(1, n))
+        pos = n if rng.random() < 0.3 else rng.randint(1, n)
+        m = rng.choice([1, 1, 2, 2, 3])
+        refs = rng.sample(range(pos), min(m, pos))
         if rng.random() < 0.5:
             refs.sort()
-        rules.append(Cr(refs, rng.random() < 0.5, rng.choice(["ok", "ok", "ok", "ok", "pipe", "fin"])))
+        rules = insert_rule(rules, pos, Cr(refs, rng.random() < 0.5, rng.choice(["ok", "ok", "ok", "ok", "pipe", "fin"])))
     return rules
+
+
+def interleaved(quick):
+    """correlation rules in front of / between detection rules: every dependency-respecting position of one
+    correlation rule (every reference subset of size <= 2, generate on/off) and of a second one (nested on the
+    first, or referring to the same base rule with the same / the other generate value) among 2..3 detection
+    rules that are fine (one / two conditions) or fail at their second condition"""
+    out = []
+    ok1, ok2, late = D(["ok"]), D(["ok", "ok"]), D(["ok", "ph"])
+    for n in (2, 3):
+        for t in itertools.product([ok1, ok2, late], repeat=n):
+            for pos in range(1, n):             # pos = n (all correlation rules last) is part 3 of gen
+                for k in (1, 2):
+                    for refs in itertools.combinations(range(pos), k):
+                        for g in (True, False):
+                            for st in (("ok",) if quick else ("ok", "fin", "pipe")):
+                                rules = insert_rule(t, pos, Cr(refs, g, st))
+                                out.append(mk(rules, True, "test", True))
+                                if not quick or (g and n == 2):
+                                    out.append(mk(rules, True, "test", False))
+                                if not quick:
+                                    out.append(mk(rules, False, "default", True, fcs=g))
+    for n in (2, 3):
+        for t in itertools.product([ok1, late] if quick else [ok1, ok2, late], repeat=n):
+            for p1 in range(1, n + 1):
+                for g in (True, False):
+                    one = insert_rule(t, p1, Cr([0], g))
+                    for p2 in range(p1 + 1, n + 2):
+                        if p1 == n and p2 == n + 1 and quick:
+                            continue            # both last: part 3
+                        for refs2, g2 in (([p1], not g), ([p1], g), ([0], g), ([0], not g), ([p1, 0], g)):
+                            if quick and (refs2, g2) in (([p1], g),):
+                                continue
+                            rules = insert_rule(one, p2, Cr(refs2, g2))
+                            out.append(mk(rules, True, "test", True))
+                            if not quick:
+                                out.append(mk(rules, True, "default", False, fcs=g2))
+    return out
 
 
 def gen(tier, rng):
@@ -118,14 +171,18 @@ def gen(tier, rng):
                         out.append(mk(list(t) + [Cr(refs, g)], False, "default", True, fcs=g))
                         out.append(mk(list(t) + [Cr(refs, g), Cr([n], not g)], True, "test", True))
                         out.append(mk(list(t) + [Cr(refs, g), Cr([n, 0], g, "ok")], True, "default", True, fcs=not g))
-    # 4. random collections of 1..6 rules (+ up to 3 correlation rules), any subset failing
-    for _ in range(450 if quick else 8000):
+    # 3b. correlation rules interleaved with detection rules
+    out += interleaved(quick)
+    # 4. random collections of 1..6 rules (+ up to 3 correlation rules at random positions), any subset failing
+    for _ in range(350 if quick else 6000):
         n = rng.randint(1, 6)
         p = rng.random() < 0.7
         pfail = rng.choice([0.0, 0.2, 0.5, 0.8])
         rules = [random_rule(rng, p, pfail) for _ in range(n)]
         if rng.random() < 0.5:
             rules = add_correlations(rules, rng, rng.randint(1, 3))
+        if rng.random() < 0.1 and len(rules) > 1:      # the coordinator's shape: base, emitting correlation, failing, two-condition
+            rules = insert_rule(rules, 1, Cr([0], rng.random() < 0.5))
         out.append(mk(rules, p, rng.choice(["test", "default"]), rng.random() < 0.7, fcs=rng.random() < 0.2, rng=rng))
     return out
 
@@ -221,6 +278,8 @@ def mutate(c, rng):
         d = copy.deepcopy(c)
         d["rules"].append(Cr([rng.randrange(n)], rng.random() < 0.5))
         out.append(d)
+        for pos in range(1, n):      # an emitting / non-emitting correlation rule in front of the remaining rules
+            out.append(dict(copy.deepcopy(c), rules=insert_rule(c["rules"], pos, Cr([rng.randrange(pos)], rng.random() < 0.5))))
     return out
 
 
@@ -241,8 +300,11 @@ PROPERTY = Property(
          "(quick) / 4 (thorough) in three configurations, length 4 (quick) / 5 (thorough) over a reduced alphabet; one failing "
          "multi-condition / finalisation-stage (failing query post-processing) variant at every position among 1..4 (quick) / 1..6 "
          "(thorough) fine rules; event_count correlation rules over every reference subset of up to 2 (quick) / 3 (thorough) rules with "
-         "generate on/off, failing at pipeline / finalisation, nested, finalize_correlation_subqueries on/off; random collections "
-         "of 1..6 rules + up to 3 correlation rules. Oracle: fresh backend, fresh pipeline, freshly parsed rule for every rule on its "
+         "generate on/off, failing at pipeline / finalisation, nested, finalize_correlation_subqueries on/off; correlation rules "
+         "interleaved with detection rules: one correlation rule (every reference subset of size <= 2, generate on/off) at every "
+         "dependency-respecting position in front of / between 2..3 detection rules (fine, two-condition, failing at the second "
+         "condition), and a second one (nested, or referring to the same base rule with equal / opposite generate) at every later "
+         "position; random collections of 1..6 rules + up to 3 correlation rules at random dependency-respecting positions. Oracle: fresh backend, fresh pipeline, freshly parsed rule for every rule on its "
          "own. Only dependency-respecting document orders (a correlation rule after the rules it names; other orders are C09). "
          "non-trivial = some rule fails or a correlation rule is present; distinct by case hash",
     assumptions=["per-rule conversion (pipeline application, condition conversion, finish_query) is a parameter of the theorems; the "
